@@ -15,7 +15,16 @@ static void note(const char *name) {
     if (!real_getenv) real_getenv = dlsym(RTLD_NEXT, "getenv");
     if (g_fd == -2) {
         const char *p = real_getenv ? real_getenv("VP_ENVSHIM_LOG") : 0;
-        g_fd = p ? (int)syscall(SYS_open, p, O_WRONLY | O_CREAT | O_APPEND | O_CLOEXEC, 0644) : -1;
+        /* only the executors that run code under test (vpmon, vpbp, vpbpm, vptest): helper programs on the way to them (setpriv, taskset, sh)
+         * and the scripted child have an ambient of their own that is nobody's business here */
+        char comm[32] = {0};
+        int cfd = (int)syscall(SYS_open, "/proc/self/comm", O_RDONLY);
+        if (cfd >= 0) {
+            syscall(SYS_read, cfd, comm, sizeof comm - 1);
+            syscall(SYS_close, cfd);
+        }
+        int ours = !strncmp(comm, "vpmon", 5) || !strncmp(comm, "vpbp", 4) || !strncmp(comm, "vptest", 6) || !strncmp(comm, "detect", 6) || !strncmp(comm, "build", 5);
+        g_fd = (p && ours) ? (int)syscall(SYS_open, p, O_WRONLY | O_CREAT | O_APPEND | O_CLOEXEC, 0644) : -1;
     }
     if (g_fd >= 0 && name) {
         char line[512];
